@@ -75,6 +75,7 @@ PDU `p'` that serialises to `bs` again -/
 theorem hrnp_roundtrip (p p' : Pdu) (bs : Bytes) (h v block src dst pn : Nat)
     (hb : p.asBytes = .ok bs) (hl : p.len = .ok bs.length)
     (hrt : Hdap.fromBytes bs = .ok (some p')) (hb' : p'.asBytes = .ok bs) (hl' : p'.len = .ok bs.length)
+    (hfl : bs.length = 7 + (if p'.little then ofLe (sl bs 3 5) else ofBe (sl bs 3 5)))
     (hpn : pn < 65536) (hlen : 12 + bs.length < 65536) :
     let b := hrnpPacket h v block hrnpDATA src dst pn bs
     let ck := hrnpCheck (hrnpHead [h] [v] block hrnpDATA src dst pn (12 + bs.length) ++ bs)
@@ -123,9 +124,14 @@ theorem hrnp_roundtrip (p p' : Pdu) (bs : Bytes) (h v block src dst pn : Nat)
     have nl2 : ¬ b.length < 12 + bs.length := by omega
     have s010 : sl b 0 10 = hrnpHead [h] [v] block hrnpDATA src dst pn (12 + bs.length) := by
       rw [hbe]; simp [sl, hrnpHead, be2]
+    have s1517 : sl b 15 17 = sl bs 3 5 := by
+      rw [hbe, sl_append_right _ _ _ _ (by simp)]
+      rfl
     simp only [Hrnp.fromBytes, s1, s2, s3, s4, s5, i2, i3, i4, i5, ofBe2', e2, e3, e4, hd, hinner, hrt, nl1, nl2,
-      if_false, bind, Except.bind, pure, Except.pure, Hrnp.init, hver p' ck hb' hl', s010]
-    simp [be2, ck]
+      if_false, bind, Except.bind, pure, Except.pure, Hrnp.init, hver p' ck hb' hl', s010, s1517]
+    have hfl' : (12 + bs.length == 12 + 7 + (if p'.little then ofLe (sl bs 3 5) else ofBe (sl bs 3 5))) = true := by
+      rw [beq_iff_eq]; omega
+    simp [be2, ck, hfl']
 
 /-- packets without data (connect, accept, reject, close, close-ack, data-ack) -/
 theorem hrnp_nodata_roundtrip (h v block opcode src dst pn : Nat) (hop : opcode ∈ hrnpValues)
@@ -156,7 +162,41 @@ theorem hrnp_nodata_roundtrip (h v block opcode src dst pn : Nat) (hop : opcode 
   · simp [Hrnp.init, hver 0, bind, Except.bind, pure, Except.pure]
   · rw [hbe]
     simp [Hrnp.fromBytes, sl, idx, ofBe2', e2, e4, hd, Hdap.fromBytes, Hrnp.init, hver ck, bind, Except.bind, pure,
-      Except.pure, show ofBe [0, 12] = 12 by rfl, be2]
+      Except.pure, show ofBe [0, 12] = 12 by rfl, be2, hnd]
     simp [ck, hrnpHead, be2]
+
+/-- the payload-length field of an HDAP frame, read the way `HRNP.from_bytes` reads it -/
+theorem frame_len_field (f : Frame) (ho : f.opcode.length = 2) (hfit : f.payload.length < 65536) :
+    f.asBytes.length = 7 + (if f.little then ofLe (sl f.asBytes 3 5) else ofBe (sl f.asBytes 3 5)) := by
+  obtain ⟨svc, rel, op, little, pl⟩ := f
+  simp only at ho hfit
+  match op, ho with
+  | [o1, o2], _ =>
+    have e := Nat.mod_eq_of_lt hfit
+    cases little <;>
+      simp [Frame.asBytes, Frame.checked, len16, le2, be2, sl, ofLe, ofBe, hdapMsgEnd] <;> omega
+
+theorem pdu_frame_little (p : Pdu) (f : Frame) (hf : p.frame = .ok f) : f.little = p.little := by
+  cases p with
+  | rrs q =>
+    simp only [Pdu.frame, Rrs.frame, bind, Except.bind] at hf
+    split at hf
+    · cases hf
+    · simp [pure, Except.pure] at hf; subst hf; rfl
+  | lp q =>
+    simp only [Pdu.frame, Lp.frame, bind, Except.bind] at hf
+    split at hf
+    · cases hf
+    · simp [pure, Except.pure] at hf; subst hf; rfl
+  | tmp q =>
+    simp only [Pdu.frame, Tmp.frame, bind, Except.bind] at hf
+    split at hf
+    · cases hf
+    · simp [pure, Except.pure] at hf; subst hf; rfl
+  | rcp q =>
+    simp only [Pdu.frame, Rcp.frame, bind, Except.bind] at hf
+    split at hf
+    · cases hf
+    · simp [pure, Except.pure] at hf; subst hf; rfl
 
 end Dmr.Hytera
